@@ -233,8 +233,8 @@ def validate(ctx, trace_path, tag, prefixes):
     by_sig = {}
     for (l0, pre), (v, name) in first.items():
         by_sig.setdefault(classify(v, name), []).append((l0, v))
-    ctx.cov["traces_validated_against_impl"] += len(spans) - len(tainted)
-    ctx.cov["trace_events_validated"] += len(events) - len(spans)
+    ctx.add("traces_validated_against_impl", len(spans) - len(tainted))
+    ctx.add("trace_events_validated", len(events) - len(spans))
     ctx.stage("trace-triage-" + tag, scenarios=len(spans), steps=len(events) - len(spans), wall=round(r.wall, 1),
               scenarios_with_failure=len(tainted), signatures={k: len(x) for k, x in sorted(by_sig.items())})
     # one report per signature: the shortest scenario, cut after the failing step
@@ -334,7 +334,7 @@ def run_stage(ctx, prefixes):
         info = json.loads(p.stdout.strip().splitlines()[-1])
         if info["uncovered"] != 0:
             raise vlib.Infra("harness left %d edges uncovered" % info["uncovered"])
-        ctx.cov["edges_replayed_on_impl"] += info["edges"]
+        ctx.add("edges_replayed_on_impl", info["edges"])
         ctx.stage("real-replay-" + name, **info)
         account(ctx, trace)
         validate_chunked(ctx, trace, name, prefixes)
